@@ -415,10 +415,14 @@ def r13_index_loop(toks, k, log, where):
         raise Unsupported("%s: R13 cannot parse for header" % where)
     pat = untok(header[:ini]).strip()
     expr_toks = [t for t in header[ini + 1:] if _is_code(t)]
-    if not expr_toks or expr_toks[0].text != "&":
-        raise Unsupported("%s: R13 needs `in &EXPR` or `in &mut EXPR`" % where)
+    if not expr_toks:
+        raise Unsupported("%s: R13 cannot parse for header" % where)
+    if expr_toks[0].text != "&":
+        # `for x in s` with s: &[T] (a slice reference): same as `for x in &s[..]`; only a plain identifier is accepted
+        if len(expr_toks) != 1 or expr_toks[0].kind != "ident":
+            raise Unsupported("%s: R13 needs `in &EXPR`, `in &mut EXPR` or `in <slice identifier>`" % where)
+        expr_toks = syn("&") + expr_toks
     mut = len(expr_toks) > 1 and expr_toks[1].text == "mut"
-    expr = untok(expr_toks[2 if mut else 1:]).strip()
     expr = "".join(t.text for t in expr_toks[2 if mut else 1:])
     close = match_close(toks, ob)
     body = toks[ob + 1:close]
